@@ -6,7 +6,22 @@ let bytes_of_hex s = List.map n_of_int (hex_decode s)
 let hex_of_bytes l = hex_encode (List.map int_of_n l)
 let salt = List.map (fun c -> n_of_int (Char.code c)) (List.init 20 (String.get "SALTsalt0123456789ab"))
 
+(* C lines: the script the real executor compiled (dumped by the fake shell, salt replaced) against compile_script *)
+let run_script line =
+  match split_on '|' (String.sub line 2 (String.length line - 2)) with
+  | [comb; env; exprs; script] ->
+    let combined = (comb = "1") in
+    let env = (if env = "-" then [] else List.map (fun kv -> match split_on ':' kv with [k; v] -> (bytes_of_hex k, bytes_of_hex v) | _ -> ([], [])) (split_on ',' env)) in
+    let exprs = List.map bytes_of_hex (split_on ',' exprs) in
+    bump (if combined then "script:combined" else "script:separate-streams"); if env <> [] then bump "script:exports";
+    note_distinct line true;
+    (match compile_script salt combined env exprs with
+     | Some m -> if m <> bytes_of_hex script then report "DIFF:script" "the script handed to the shell is not the model's compile_script" line
+     | None -> report "BAD" "model rejects the environment" line)
+  | _ -> report "BAD" "unparsable script line" line
+
 let run () = iter_lines (fun line ->
+  if String.length line > 1 && line.[0] = 'C' then run_script line else
   try
     match split_on '|' (String.sub line 2 (String.length line - 2)) with
     | [head; out] ->
